@@ -28,7 +28,7 @@ BIG_R = {"quick": 8, "thorough": 60}
 
 # case generator (B): several runs of Gen_Metrics with different bounds (union of the cases)
 GEN_BASE = dict(CmLen=1, CmAlpha=1, CmBinLen=1, RocLen=2, RocDen=1, RegLen=1, RegNeg=0, RegHi=0, SilMinLen=4, SilLen=4,
-                SilPos=1, SilKs="{2}", PearRows=2, PearCols=2, PearHi=1, RegLongLens="{}", RocuLen=1, RocuRank=0)
+                SilPos=1, SilKs="{2}", PearRows=2, PearCols=2, PearHi=1, RegLongLens="{}", RocuLen=1, RocuRank=0, PearWideCols="{}")
 
 
 def gen_runs(tier):
@@ -36,7 +36,7 @@ def gen_runs(tier):
     q = tier == "quick"
     runs = [
         # "reglong" is a generator tag (the cases are ordinary "reg" cases of length 22..48)
-        (ALL_KINDS + ["reglong"], dict(RegLongLens="{22, 23, 24, 26, 28, 30, 32, 36, 40, 44, 47, 48}" if q else
+        (ALL_KINDS + ["reglong", "pearwide"], dict(PearWideCols="{4, 5, 6}",RegLongLens="{22, 23, 24, 26, 28, 30, 32, 36, 40, 44, 47, 48}" if q else
                                        "{22, 23, 24, 25, 26, 28, 30, 32, 34, 36, 38, 40, 42, 44, 46, 47, 48}",
                          RocuLen=3, RocuRank=2 if q else 3,
                          CmLen=3 if q else 4, CmAlpha=3, CmBinLen=5 if q else 6,
@@ -149,7 +149,7 @@ def random_cases(ctx, scale=1.0):
         out.append({"kind": "sil", "inp": {"pos": pos, "lab": lab, "perm": rperm(r, n)}})
     for _ in range(cnt(1200)):
         n = r.randint(4, 12)
-        m = r.randint(2, 4)
+        m = r.randint(2, 6)
         cols = []
         for j in range(m):
             if j > 0 and r.random() < 0.4:      # correlated with an earlier column
@@ -193,7 +193,7 @@ def build_cases(ctx):
     cases = []
     seen = set()
     for ks, over in gen_runs(ctx.tier):
-        ks = [k for k in ks if k in kinds or (k == "reglong" and "reg" in kinds)]
+        ks = [k for k in ks if k in kinds or (k == "reglong" and "reg" in kinds) or (k == "pearwide" and "pear" in kinds)]
         if not ks:
             continue
         consts = dict(GEN_BASE)
@@ -249,7 +249,7 @@ def run_conformance(ctx, binp):
     traces = vlib.run_harness(ctx, binp, cases)
     for kind in ALL_KINDS:
         vlib.sample(ctx, [t for t in traces if t["kind"] == kind][:1], n=1)
-    vlib.validate_with_findings(ctx, "Trace_Metrics", traces, constants=TRACE_CONST, chunk=4200)
+    vlib.validate_with_findings(ctx, "Trace_Metrics", traces, constants=TRACE_CONST, chunk=4500)
     per_kind = {k: sum(1 for c in cases if c["kind"] == k) for k in ALL_KINDS}
     ctx.extra["cases_per_kind"] = per_kind
     ctx.extra["cases_enumerated_by_tlc"] = n_enum
@@ -258,7 +258,7 @@ def run_conformance(ctx, binp):
                 "classes; ulp-neighbour scores (ranks 0..2/3 mapped to adjacent f32 values at 1/2, 0 and 1, length<=3/4); all lattice vector "
                 "pairs over -2..2 (length<=2) and -1..1/2 (length 3) and formula-built vectors of length 22..48; two-column targets; sorted "
                 "collinear positions 0..3 with every 2-/3-clustering into clusters of >=2 distinct points (length<=5/6); all "
-                "3x2, 3x3, 4x3 integer matrices with non-constant columns [quick/thorough]; thorough adds seeded random longer "
+                "3x2, 3x3, 4x3 integer matrices with non-constant columns and 6x4..6x6 matrices from a pool of eight columns (both column orders),  [quick/thorough]; thorough adds seeded random longer "
                 "inputs (length<=40). Each case is run through every calling form (arrays, views, datasets), label type "
                 "(usize, String, bool) and float type, as given and after one permutation. non-trivial = prediction != truth "
                 "(cm, reg), a tie between the classes or a boundary score 0/1 (roc), every clustering / matrix; distinct by (kind, input)")
